@@ -23,7 +23,7 @@ var (
 	sAllR = timestamp.NewInclusiveTimeRange(sTA.Add(-time.Hour), sTB.Add(48*time.Hour))
 )
 
-type sworld struct {
+type stgWorld struct {
 	db        *storage.VDB
 	dir       string
 	segs      []*storage.VSeg
@@ -38,12 +38,12 @@ type sworld struct {
 	reopenedA bool
 }
 
-func (w *sworld) bad(s string) { w.viol[s] = true }
+func (w *stgWorld) bad(s string) { w.viol[s] = true }
 
 func storageSetup(sc scenario, seq *int) sched.Harness {
 	*seq++
 	dir := filepath.Join(base, fmt.Sprintf("s%d", *seq))
-	w := &sworld{dir: dir, viol: map[string]bool{}}
+	w := &stgWorld{dir: dir, viol: map[string]bool{}}
 	storage.VSnapshotYield = true
 	db, err := storage.VOpenDB(filepath.Join(dir, "db"), storage.VOpts{
 		Now: sNow, Interval: storage.IntervalRule{Unit: storage.DAY, Num: 1}, TTL: storage.IntervalRule{Unit: storage.DAY, Num: 7},
@@ -143,7 +143,7 @@ func storageSetup(sc scenario, seq *int) sched.Harness {
 	}
 }
 
-func (w *sworld) final(sc scenario) {
+func (w *stgWorld) final(sc scenario) {
 	// the recording tables flag every use after close and every table / directory lost mid-copy
 	for _, e := range w.db.Errors {
 		w.bad("table: " + e)
